@@ -27,11 +27,27 @@ log = r.stdout
 b = json.load(open('/root/.vp/BASELINE.json'))
 stable = set(b['stable_pass'])
 names = {}
+parts = {}
 for m in re.finditer(r'^\s*(PASS|FAIL|SIGABRT|SIGSEGV|TIMEOUT|LEAK)\s+\[[^\]]*\]\s+\(\s*\d+/\d+\)\s+(\S+)\s+(.*)$', log, re.M):
     names['%s::%s' % (m.group(2), m.group(3).strip())] = m.group(1)
+    parts['%s::%s' % (m.group(2), m.group(3).strip())] = (m.group(2), m.group(3).strip())
+# a stable test that failed in the bulk run (the machine may be loaded: several tests have a 10 s watchdog) is re-run alone, up to 3 times;
+# it counts as failing only if it fails every time
+retried = {}
+for n in sorted(n for n, st in names.items() if st != 'PASS' and n in stable):
+    b_, t_ = parts[n]
+    ok = False
+    for k in range(3):
+        rr = sh("cargo nextest run --workspace --offline --no-fail-fast --tool-config-file pb:/w/lib/nextest.toml --profile pb -E 'binary_id(=%s) & test(=%s)'" % (b_, t_))
+        if re.search(r'Summary.*\b1 passed', rr.stdout) and not re.search(r'\d+ failed', rr.stdout.split('Summary')[-1]):
+            ok = True
+            break
+    retried[n] = 'passes alone (attempt %d)' % (k + 1) if ok else 'fails alone 3x'
+    if ok:
+        names[n] = 'PASS'
 summ = re.findall(r'Summary.*', log)
 res = {'union': applied, 'suite_summary': summ[-1] if summ else 'NO SUMMARY ' + log[-600:], 'builds': bool(summ),
-       'stable_failing': sorted(n for n, s in names.items() if s != 'PASS' and n in stable), 'wall_s': round(time.time() - t0), 'at': time.strftime('%F %T')}
+       'stable_failing': sorted(n for n, s in names.items() if s != 'PASS' and n in stable), 'retried_alone': retried, 'wall_s': round(time.time() - t0), 'at': time.strftime('%F %T')}
 for s in applied:
     json.dump(res, open('/tmp/seedout/%s/confirm_suite.json' % s, 'w'), indent=1)
 open('/tmp/seedout/union_%s.log' % '_'.join(applied)[:80], 'w').write(log[-300000:])
